@@ -7,11 +7,12 @@ package tlb
 // interpreter of the Hashmap TL-B schema), both in refhash_helper_test.go.
 //
 // Bound (quick tier):
-//   A. dictionaries with 8-bit keys: every non-empty subset of the 8 candidate keys {00,01,02,7f,80,81,fe,ff} (255 key sets,
-//      alternating Hashmap / HashmapE), Uint32 values; every present key is proven, every absent candidate plus {03,40,c0}
-//      must be refused  (thorough: 11 candidates = 2047 key sets);
-//   B. random dictionaries with 1..6 entries (thorough: 1..12) for key widths 16 (values with a child cell), 32, 64 and 256
-//      bits, plus 256-bit key sets whose members differ only in the first / last bits (long labels); 2 absent keys each;
+//   A. dictionaries with 8-bit keys: every non-empty subset of the 10 candidate keys {00,01,02,40,7f,80,81,aa,fe,ff} (1023 key
+//      sets, alternating Hashmap / HashmapE), Uint32 values; every present key is proven, every absent candidate plus
+//      {03,41,c0} must be refused  (thorough: 13 candidates = 8191 key sets);
+//   B. 300 rounds (thorough 6000) of random dictionaries with 1..6 entries (thorough: 1..12) for each of the key widths 16
+//      (values with a child cell, every 4th round clustered keys), 32, 64 and 256 bits (random / differing only in the last
+//      byte / only in the first byte, i.e. long labels and early forks); 2 absent keys each;
 //   C. cell trees x pruned sets through the cursor API: 6 fixed trees (shared sub-trees, 1023-bit cells, a chain, a library
 //      cell) x every subset of their non-root cells.
 // Per proof: the bag of cells has one root; the root is a Merkle-proof cell with data 03 | hash | depth of the original root
@@ -301,9 +302,9 @@ func c18SortedUnique[K any](keys []K, less func(a, b K) bool) []K {
 }
 
 func (e *c18Env) partA(thorough bool) {
-	universe := []Uint8{0x00, 0x01, 0x02, 0x7f, 0x80, 0x81, 0xfe, 0xff}
+	universe := []Uint8{0x00, 0x01, 0x02, 0x40, 0x7f, 0x80, 0x81, 0xaa, 0xfe, 0xff}
 	if thorough {
-		universe = []Uint8{0x00, 0x01, 0x02, 0x3f, 0x40, 0x7f, 0x80, 0x81, 0xaa, 0xfe, 0xff}
+		universe = []Uint8{0x00, 0x01, 0x02, 0x04, 0x3f, 0x40, 0x7f, 0x80, 0x81, 0xaa, 0xbf, 0xfe, 0xff}
 	}
 	extra := []Uint8{0x03, 0x41, 0xc0}
 	for set := 1; set < 1<<uint(len(universe)); set++ {
@@ -323,9 +324,9 @@ func (e *c18Env) partA(thorough bool) {
 }
 
 func (e *c18Env) partB(thorough bool, rng *rand.Rand) {
-	maxN, rounds := 6, 40
+	maxN, rounds := 6, 300
 	if thorough {
-		maxN, rounds = 12, 400
+		maxN, rounds = 12, 6000
 	}
 	for r := 0; r < rounds; r++ {
 		n := 1 + r%maxN
